@@ -47,7 +47,7 @@ def floors(tier):
     return {"evaluations": 9_000 if tier == "quick" else 50_000, "distinct": 9_000 if tier == "quick" else 50_000,
             "counters": {"ops_checked": 35_000, "lockstep_compares": 60_000, "saves": 300, "reopened_tables_compared": 300, "second_saves": 20,
                          "hostile_ops": 300, "multi_document_histories": 20, "tile_boundary_tables": 5, "wide_tables": 3, "fixture_starts": 5,
-                         "cross_table_checks": 2000, "inserts_with_default": 500, "reloaded_merged_starts": 15}}
+                         "cross_table_checks": 2000, "inserts_with_default": 500, "reloaded_merged_starts": 15, "lookups_by_name": 3000, "renames_onto_a_freed_name": 20}}
 
 
 def alphabet(R, C):
@@ -314,7 +314,7 @@ def rand_value(rng):
     if c < .4:
         return rng.randrange(-1000, 1000)
     if c < .6:
-        return rng.choice(["a", "b", "", "é\nx", "long " * 20, "7"])
+        return rng.choice(["a", "b", "", "é\nx", "long " * 20, "7"] + V.EQUIVALENT[:10])
     if c < .7:
         return rng.random() < .5
     if c < .8:
@@ -399,9 +399,26 @@ def run_random_history(case, rec):
     kinds = []
     nops = case["nops"]
     nsaves = 0
+    freed = {}
     for step in range(nops):
         tr = rng.choice(trs)
         g = tr.grid
+        if rng.random() < .3:
+            # addressing a table by the names of its sheet and itself reaches that table and no other
+            doc = docs_[tr.doc_i]
+            rec.count("lookups_by_name")
+            try:
+                with warnings.catch_warnings():
+                    warnings.simplefilter("ignore")
+                    got = doc.sheets[doc.sheets[tr.sheet_i].name].tables[tr.table.name]
+                other = getattr(got, "_table_id", None) != tr.table._table_id
+            except Exception as e:  # noqa: BLE001
+                rec.violation("lookup_by_name", {"what": "raised", "exc": type(e).__name__}, {"table": tr.where(), "name": tr.table.name, "msg": str(e)[:200], "log": log.export(6)}, case=case)
+                return False
+            if other:
+                rec.violation("lookup_by_name", {"what": "other-table"}, {"table": tr.where(), "name": tr.table.name, "got": getattr(got, "name", None), "log": log.export(6)}, case=case)
+                return False
+            tr.table = got  # and the edits that follow go through what the lookup returned
         c = rng.random()
         op = None
         if tr.merged_rect is not None and .42 <= c < .8:
@@ -463,11 +480,27 @@ def run_random_history(case, rec):
                 continue
         elif c < .9:
             nm = f"Renamed {step}"
+            doc = docs_[tr.doc_i]
             if rng.random() < .5:
+                # a name that another table of this sheet gave up earlier is free again: the lookup by name must follow
+                pool = freed.setdefault(("t", tr.doc_i, tr.sheet_i), [])
+                taken = {x.name for x in doc.sheets[tr.sheet_i].tables}
+                cand = [x for x in pool if x not in taken]
+                if cand and rng.random() < .5:
+                    nm = rng.choice(cand)
+                    rec.count("renames_onto_a_freed_name")
+                pool.append(tr.table.name)
                 log.call({"op": "rename_table", "table": tr.where(), "name": nm}, lambda: setattr(tr.table, "name", nm))
             else:
-                doc = docs_[tr.doc_i]
-                log.call({"op": "rename_sheet", "table": tr.where(), "name": "S" + nm}, lambda: setattr(doc.sheets[tr.sheet_i], "name", "S" + nm))
+                pool = freed.setdefault(("s", tr.doc_i), [])
+                taken = {x.name for x in doc.sheets}
+                cand = [x for x in pool if x not in taken]
+                nm = "S" + nm
+                if cand and rng.random() < .5:
+                    nm = rng.choice(cand)
+                    rec.count("renames_onto_a_freed_name")
+                pool.append(doc.sheets[tr.sheet_i].name)
+                log.call({"op": "rename_sheet", "table": tr.where(), "name": nm}, lambda: setattr(doc.sheets[tr.sheet_i], "name", nm))
             kinds.append("rename")
         elif nsaves < 3:
             nsaves += 1
